@@ -126,6 +126,9 @@ def check_noquit(run, case, name, sn, U, I, steps, label, age=None):
     if r.stdout != '':
         run.violation(f'{label} {desc} (session age {age}s): keypress-thread activity wrote to stdout, which carries the guess stream', case,
                       observed=r.stdout[:200]); return False
+    if r.stdout_missing:
+        run.violation(f'{len(r.stdout_missing)} guess(es) handed to print_guess never reached standard output (they were written somewhere else)', case,
+                      observed=r.stdout_missing[:5]); return False
     if r.guesses != U.guesses:
         k = next((i for i, (a, b) in enumerate(zip(r.guesses, U.guesses)) if a != b), min(len(r.guesses), len(U.guesses)))
         run.violation(f'{label}: stream changed by keypress-thread activity {desc} (no quit was requested): {len(r.guesses)} of {len(U.guesses)} guesses, '
@@ -142,6 +145,9 @@ def check_quit(run, case, name, sn, U, Upg, I, steps, label):
     run.ev('scheduled_runs'); run.ev('line_events', s.n_events); run.ev('quit_runs')
     if A.stdout != '':
         run.violation(f'{label} {[x.as_list() for x in steps]}: the quit handling wrote to stdout', case, observed=A.stdout[:200]); return False
+    if A.stdout_missing:
+        run.violation(f'{len(A.stdout_missing)} guess(es) handed to print_guess never reached standard output (they were written somewhere else)', case,
+                      observed=A.stdout_missing[:5]); return False
     run.add_to_set('interleavings', s.digest())
     desc = [x.as_list() for x in steps]
     if s.problems:
@@ -239,6 +245,9 @@ def check_resumed_phase(run, case, name, sn, Bref, label, desc):
         if R.stdout != '':
             run.violation(f'{label}: resumed run (saved running_time {aged}s): a {act!r} request wrote to stdout, which carries the guess stream', case,
                           observed=R.stdout[:200]); return False
+        if R.stdout_missing:
+            run.violation(f'{len(R.stdout_missing)} guess(es) handed to print_guess never reached standard output (they were written somewhere else)', case,
+                          observed=R.stdout_missing[:5]); return False
         run.ev('scheduled_runs'); run.ev('scheduled_resumed_runs'); run.add_to_set('interleavings', s.digest())
         if s.problems:
             run.inconc('scheduler watchdog: ' + s.problems[0]); continue
@@ -285,7 +294,7 @@ def check_case(run, case, tier='quick'):
         EOF, ERR = EOFError, sched.ExplodingStr('x')
         for p in pts:
             act = rng.choice(['', 'h', EOF, ERR, '', 'zz'])
-            hold = rng.choice([None, None, rng.randint(1, 60)])
+            hold = rng.choice([None, None, rng.randint(1, 60), rng.randint(1, 60), 'in:print_status', 'in:get_status', 'in:print_help'])
             rel = None if hold is None else p + rng.randint(1, 80)
             if not check_noquit(run, case, name, sn, U, I, [sched.Step(p, act, hold, rel)], 'single request', age=rng.choice(AGES)):
                 return
